@@ -39,7 +39,7 @@ from tangermeme.utils import random_one_hot
 nn = torch.nn
 
 SCOPE = {
-    'quick': 'seeded random sequential float64 nets, depth 1-4 weight layers (Conv1d k1-4/stride1-3/dilation1-3/padding0-2, Linear, AvgPool1d incl. padding/ceil/overlap, MaxPool1d with disjoint windows incl. padding/ceil, Flatten/Unflatten/Transpose, 16 element-wise activations of the table with non-default parameters), alphabet 2-5, length 6-14, 1-3 examples x 1-4 references (tensor: one-hot / zeros / uniform / real-valued; generated: dinucleotide_shuffle and shuffle with int seed, dinucleotide_shuffle unseeded), every target, batch_size 1..n*S+2: 1400 nets + every activation class (2 parameterisations x 2 weight scales) in a fixed 3-layer net + 4 non-sequential models (residual add, concatenated branches + MaxPool1d, activation/max-pool on the input, MaxPool2d) x 3 seeds + 100 nets with overlapping/dilated MaxPool1d and the two minimal hand-checkable ones',
+    'quick': 'seeded random sequential float64 nets, depth 1-4 weight layers (Conv1d k1-4/stride1-3/dilation1-3/padding0-2, Linear, AvgPool1d incl. padding/ceil/overlap, MaxPool1d with disjoint windows incl. padding/ceil, Flatten/Unflatten/Transpose, 16 element-wise activations of the table with non-default parameters), alphabet 2-5, length 6-14, 1-3 examples x 1-4 references (tensor: one-hot / zeros / uniform / real-valued; generated: dinucleotide_shuffle and shuffle with int seed, dinucleotide_shuffle unseeded), every target, batch_size 1..n*S+2: 1200 nets + every activation class (2 parameterisations x 2 weight scales) in a fixed 3-layer net + 4 non-sequential models (residual add, concatenated branches + MaxPool1d, activation/max-pool on the input, MaxPool2d) x 3 seeds + 2 nets with the default n_shuffles=20 / batch_size=32 + 100 nets with overlapping/dilated MaxPool1d and the two minimal hand-checkable ones',
     'thorough': 'same generator, 15000 nets, 1500 overlapping/dilated MaxPool1d nets, non-sequential models x 20 seeds, every activation x 10 parameterisations x 2 weight scales',
 }
 
@@ -315,7 +315,7 @@ def _act_inputs(model, Z):
     m = copy.deepcopy(model)
     got, hs = [], []
     for mod in m.modules():
-        if isinstance(mod, ACT_CLASSES + (nn.MaxPool1d,)):
+        if isinstance(mod, ACT_CLASSES + (nn.MaxPool1d, nn.MaxPool2d)):
             hs.append(mod.register_forward_pre_hook(lambda mod, inp: got.append(inp[0].detach().clone())))
     with torch.no_grad():
         m(Z)
@@ -452,6 +452,12 @@ def run(rep):
             case = {'kind': 'net', 'section': 'dag', 'dag': name, 'A': 4, 'L': 10, 'n': 2, 'S': 3, 'target': sd % 2, 'wseed': sd, 'gain': 2.0,
                     'xseed': sd, 'refs': REF_KINDS[sd % len(REF_KINDS)], 'rs': sd, 'batch_size': 1 + sd % 7}
             _run_case(rep, case, ('dag', name, sd))
+    # the documented defaults: 20 dinucleotide shuffles per example, batch_size 32 (the last batch is partial)
+    for sd in range(10 if thorough else 2):
+        spec = gen_spec(rng, 4, 16, 3, 2, maxpool='disjoint')
+        case = {'kind': 'net', 'section': 'defaults', 'A': 4, 'L': 16, 'n': 3, 'S': 20, 'target': sd % 2, 'wseed': sd, 'gain': 1.5,
+                'xseed': 50 + sd, 'refs': 'dinuc', 'rs': sd, 'batch_size': 32, 'spec': spec}
+        _run_case(rep, case, ('defaults', sd))
     # observation only: one activation object applied twice
     bad = 0
     for sd in range(3):
@@ -473,7 +479,7 @@ def run(rep):
         case = _new_case(rng, 'maxpool-overlap', lambda r, A, L, nt: gen_spec(r, A, L, r.randint(2, 3), nt, maxpool='overlap', p_max=0.7))
         _run_case(rep, case, ('ov', k), sample=k < 1)
     # (4) the main generator
-    n_main = 15000 if thorough else 1400
+    n_main = 15000 if thorough else 1200
     for k in range(n_main):
         if rep.out_of_time():
             rep.note('main generator cut at %d of %d (time budget)' % (k, n_main))
